@@ -63,7 +63,7 @@ class _W:
             pass
 
 
-def run_tasks(fn, tasks, workers=16, timeout=60.0, batch=16, init=None, env=None, on_result=None, fresh=False):
+def run_tasks(fn, tasks, workers=16, timeout=60.0, batch=16, init=None, env=None, on_result=None, fresh=False, _depth=0):
     """Run fn(task) for every task; returns list of (status, value) aligned with tasks where
     status in {"ok","err","hang","died"}."""
     tasks = list(tasks)
@@ -162,9 +162,21 @@ def run_tasks(fn, tasks, workers=16, timeout=60.0, batch=16, init=None, env=None
                 ws.remove(w)
                 nw = _W(fn, init, env, fresh)
                 ws.append(nw)
-    for i in range(n):
-        if results[i] is None:
-            results[i] = ("died", "result lost (worker died)")
+    lost = [i for i in range(n) if results[i] is None]
+    if lost:
+        import sys
+        sys.stderr.write("pool: %d results lost (done=%d n=%d nxt=%d retry=%d pending=%s)\n" % (
+            len(lost), done, n, nxt, len(retry), [len(w.pending) for w in ws]))
+    if lost and _depth == 0:
+        again = run_tasks(fn, [tasks[i] for i in lost], workers=workers, timeout=timeout, batch=1, init=init, env=env,
+                          on_result=None, fresh=fresh, _depth=1)
+        for i, r in zip(lost, again):
+            results[i] = r
+            if on_result:
+                on_result(i, r[0], r[1])
+        lost = []
+    for i in lost:
+        results[i] = ("died", "result lost (worker died)")
     for w in ws:
         try:
             w.parent.send(None)
